@@ -136,6 +136,7 @@ func (e *Exec) load(p PtrV) Value {
 }
 
 func (e *Exec) loadIdx(b *Backing, idx *Term) Value {
+	idx = e.norm(idx)
 	if b.opaque != "" {
 		e.unsupported("read of opaque data (%s)", b.opaque)
 	}
@@ -168,6 +169,7 @@ func (e *Exec) store(T types.Type, p PtrV, v Value) {
 		return
 	}
 	if p.b != nil {
+		p.idx = e.norm(p.idx)
 		if p.idx.IsConst() {
 			e.storeInto(T, &p.b.cells[p.idx.c], v)
 			return
@@ -1232,6 +1234,7 @@ func (e *Exec) sliceOp(instr *ssa.Slice, x, lo, hi, max Value) Value {
 	if !e.Branch(ok) {
 		e.rtPanic("slice", fmt.Sprintf("slice bounds out of range [%v:%v] with capacity %v", l, h, limit))
 	}
+	l, h, m, off = e.norm(l), e.norm(h), e.norm(m), e.norm(off)
 	if isStr {
 		return StrV{b: b, off: c.Bin(OAdd, off, l), n: c.Bin(OSub, h, l)}
 	}
